@@ -217,3 +217,25 @@ func VerifC19Decode() {
 		verifCover("C19.dec.reject")
 	}
 }
+
+// a bitrate field written as an over-long LEB128 (9 to 11 bytes with the
+// continuation bit forced, value bits symbolic): never a panic, whatever is decided
+func VerifC19LongLeb128() {
+	k := verifCase("continuation-bytes", 8, 11)
+	in := []byte{0x01, 0x00} // one stream, one spatial layer, one temporal layer
+	for i := 0; i < k; i++ {
+		in = append(in, 0x80|verifU8("leb.byte"))
+	}
+	in = append(in, verifU8("leb.last")&0x7F)
+	in = append(in, verifBytes("tail", verifCase("tail", 0, 1))...)
+	var v VLA
+	n, err := v.Unmarshal(in)
+	if err == nil {
+		verifAssert("C19.longleb.n", n >= 3 && n <= len(in))
+		verifAssert("C19.longleb.layers", len(v.ActiveSpatialLayer) == 1 && len(v.ActiveSpatialLayer[0].TargetBitrates) == 1)
+		verifCover("C19.longleb.accepted")
+	} else {
+		verifCover("C19.longleb.rejected")
+	}
+	verifCover("C19.longleb.end")
+}
